@@ -16,6 +16,7 @@ import (
 	"path/filepath"
 	"regexp"
 	"sort"
+	"strconv"
 	"strings"
 	"time"
 )
@@ -114,7 +115,11 @@ type known struct {
 	Function string
 	Pattern  string // glob over the decision; empty = every decision
 	Text     string
+	Quick    int64 // recorded number of failing inputs of this class on the pinned tree (quick / thorough tier); -1 = not recorded
+	Thorough int64
 }
+
+var knownCountRe = regexp.MustCompile(`^(quick|thorough)=(\d+)\s+`)
 
 var knownRe = regexp.MustCompile(`^known:\s+property=(\S+)\s+bounded=([A-Za-z0-9_]+)/(\S+)\s*(.*)$`)
 
@@ -132,9 +137,22 @@ func readKnown(verif string) []known {
 		if m == nil {
 			continue
 		}
-		k := known{Property: m[1], Suite: m[2], Function: m[3], Text: m[4]}
+		k := known{Property: m[1], Suite: m[2], Function: m[3], Text: m[4], Quick: -1, Thorough: -1}
 		if i := strings.Index(k.Function, "#"); i >= 0 {
 			k.Function, k.Pattern = k.Function[:i], k.Function[i+1:]
+		}
+		for {
+			cm := knownCountRe.FindStringSubmatch(k.Text)
+			if cm == nil {
+				break
+			}
+			n, _ := strconv.ParseInt(cm[2], 10, 64)
+			if cm[1] == "quick" {
+				k.Quick = n
+			} else {
+				k.Thorough = n
+			}
+			k.Text = k.Text[len(cm[0]):]
 		}
 		out = append(out, k)
 	}
@@ -378,6 +396,28 @@ func runSuite(out *os.File, suite, repo, verif, tier string, seed int64, keep bo
 			fmt.Fprintf(out, "BOUNDED-FAILURE suite=%s function=%s replay=%s %s\n", suite, c.Function, replay, desc)
 		}
 		for _, a := range kaggs {
+			// a known class is recorded with its size on the pinned tree: MORE failing inputs in the class than recorded
+			// is a new violation hiding in a known class (counts are deterministic: exhaustive domains, or sampled with seed 1)
+			want := a.k.Quick
+			if tier == "thorough" {
+				want = a.k.Thorough
+			}
+			if want >= 0 && (c.Exhaustive || seed == 1) && a.count > want {
+				unknownFailures += a.count - want
+				nReplay++
+				os.MkdirAll(replayDir, 0o755)
+				replay := filepath.Join(replayDir, fmt.Sprintf("%d.json", nReplay))
+				rep := map[string]interface{}{"suite": suite, "function": c.Function, "kind": c.Kind, "property_ids": c.Props,
+					"decision_class": a.k.Pattern, "count": a.count, "recorded_count": want, "new_failing_inputs": a.count - want,
+					"new_failing_input_not_isolated": true, "tier": tier, "seed": seed, "repo_commit": commit, "repo_dirty": dirty, "level": "bounded",
+					"note": "the class of a known finding has grown: the additional failing inputs are not isolated from the recorded ones; the first example of the class follows"}
+				if a.first != nil {
+					rep["example_of_class"] = a.first.Input
+					rep["go_test_file"] = testFile(a.first.GoTest)
+				}
+				os.WriteFile(replay, marshal(rep), 0o644)
+				fmt.Fprintf(out, "BOUNDED-FAILURE suite=%s function=%s replay=%s known class %s has %d failing inputs, %d more than the %d recorded for the pinned tree no-failing-input-found\n", suite, c.Function, replay, a.k.Pattern, a.count, a.count-want, want)
+			}
 			eg := ""
 			if a.first != nil {
 				eg = compact(a.first.Input) + " library=" + short(a.first.Lib) + " oracle=" + a.first.Want
